@@ -29,6 +29,8 @@ void oracle_fail(const std::string &name, const std::string &detail) {
 }
 int oracle_fail_count() { return (int)g_failures.a.size(); }
 
+extern "C" char __executable_start;
+static char *image_base() { return &__executable_start; }
 static int policy_of(const std::string &s) {
     if (s == "np") return POL_NP; if (s == "rand") return POL_RAND; if (s == "pct") return POL_PCT; if (s == "starve") return POL_STARVE;
     if (s == "burst") return POL_BURST; if (s == "explicit") return POL_EXPLICIT; if (s == "rr") return POL_RR; return POL_NP;
@@ -44,6 +46,8 @@ void sim_config_from_case(const J &c, SimConfig &sc) {
     if (s.has("dev")) { for (auto &d : s["dev"].a) g_devs.push_back({d.a[0].U(), (int)d.a[1].I()}); sc.dev = g_devs.data(); sc.ndev = g_devs.size(); }
     if (s.has("jumps")) for (auto &d : s["jumps"].a) if (sc.njump < 4) { sc.jump_at[sc.njump] = d.a[0].U(); sc.jump_ns[sc.njump] = d.a[1].U(); sc.njump++; }
     if (s.has("stall")) { sc.stall_at = s["stall"].a[0].U(); sc.stall_tid = (int)s["stall"].a[1].I(); sc.stall_len = s["stall"].a[2].U(); }
+    sc.fine_period = (uint64_t)s.geti("fine", 0);
+    if (s.has("api_stall")) { sc.api_stall_permille = (int)s["api_stall"].a[0].I(); sc.api_stall_len = s["api_stall"].a[1].U(); }
     sc.record_trace = (int)s.geti("record", 1);
     sc.cores = (int)m.geti("cores", 4); sc.sockets = (int)m.geti("sockets", 1); sc.cpuinfo_mode = (int)m.geti("cpuinfo", 0);
     sc.poison = (int)mem.geti("poison", 0xA5); sc.alloc_fail_at = mem.geti("alloc_fail_at", 0); sc.thread_fail_at = mem.geti("thread_fail_at", 0);
@@ -59,8 +63,13 @@ void add_sim_stats() {
     s.set("alloc_faults_fired", st->alloc_faults_fired); s.set("thread_faults_fired", st->thread_faults_fired); s.set("eintr_fired", st->eintr_fired);
     s.set("spurious_fired", st->spurious_fired); s.set("eperm_fired", st->eperm_fired); s.set("jumps_fired", st->jumps_fired); s.set("stall_fired", st->stall_fired);
     s.set("max_runnable", st->max_runnable); s.set("dev_inapplicable", st->dev_inapplicable); s.set("alloc_counter", sim_alloc_counter()); s.set("thread_create_counter", sim_thread_create_counter());
-    s.set("nthreads", sim_nthreads());
+    s.set("nthreads", sim_nthreads()); s.set("fine_preemptions", st->fine_preemptions); s.set("fine_calls", st->fine_calls);
     g_result.set("sim", s);
+    if (g_case["sim"].geti("emit_threads", 0)) {   // start routines of the simulated threads (image-relative), for diagnostics
+        J t = J::arr();
+        for (int i = 0; i < sim_nthreads(); i++) t.push((uint64_t)((char *)sim_thread_fn(i) - image_base()));
+        g_result.set("thread_fns", t);
+    }
     if (g_case["sim"].geti("emit_trace", 0)) {
         const SimDeviation *d; size_t n = sim_trace(&d); J t = J::arr();
         for (size_t i = 0; i < n; i++) { J e = J::arr(); e.push(d[i].decision); e.push(d[i].tid); t.push(e); }
@@ -77,8 +86,18 @@ void finish() {
     if (fd >= 0) { size_t o = 0; while (o < s.size()) { ssize_t w = write(fd, s.data() + o, s.size() - o); if (w <= 0) break; o += (size_t)w; } close(fd); }
     _exit(0);
 }
+extern "C" char __executable_start;
 void world_fatal(const char *cls, const char *detail) {
     g_result.set("outcome", cls); g_result.set("detail", detail);
+    if (!strcmp(cls, "DEADLOCK")) {   // wait-for signature: where every blocked task waits (image-relative return addresses; the driver symbolises)
+        J a = J::arr(); uintptr_t base = (uintptr_t)&__executable_start;
+        for (int t = 0; t < sim_nthreads(); t++) {
+            uintptr_t pcs[12]; size_t n = sim_blocked_pcs(t, pcs, 12); if (!n) continue;
+            std::string s; char b[32]; for (size_t k = 0; k < n; k++) { snprintf(b, sizeof b, "%s0x%lx", k ? "," : "", (unsigned long)(pcs[k] - base - 1)); s += b; }
+            J e = J::arr(); e.push(t); e.push(s); a.push(e);
+        }
+        g_result.set("blocked", a);
+    }
     J ev; events_summarize(ev); g_result.set("events", ev);
     finish();
 }
